@@ -79,9 +79,13 @@ def api_call(ex, st, args, ins, fn):
             return None
         if c is False:
             raise PathEnd('assumed-away')
-        r, _ = ex.check(c)
-        if r == 'unsat':
-            raise PathEnd('assumed-away')
+        if st.model is not None and z3.is_true(st.model.eval(c, model_completion=True)):
+            pass
+        else:
+            r, m = ex.check(c, st)
+            if r == 'unsat':
+                raise PathEnd('assumed-away')
+            st.model = m
         ex.solver.add(c)
         st.pc.append(c)
         return None
@@ -94,16 +98,22 @@ def api_call(ex, st, args, ins, fn):
             if c is False:
                 raise PathEnd('assumed-away')
             if c is not True:
-                r, _ = ex.check(c)
+                r, m = ex.check(c, st)
                 if r == 'unsat':
                     raise PathEnd('assumed-away')
+                st.model = m
                 ex.solver.add(c)
                 st.pc.append(c)
         return None
     if short == 'verifReach':
         label = args[0].decode()
         if label not in ex.reach:
-            r, m = ex.check()
+            if st.model is not None:
+                r, m = 'sat', st.model
+            else:
+                r, m = ex.check(None, st)
+                if r == 'sat':
+                    st.model = m
             if r == 'sat':
                 ex.reach[label] = ex.witness(st, m, label, 'reach')
         ex.reach_count[label] = ex.reach_count.get(label, 0) + 1
@@ -150,8 +160,7 @@ def api_call(ex, st, args, ins, fn):
                         invf = ex.ufs[ik] = z3.Function('inv_%s_%d_%d' % (name, len(ex.ufs), k), rs, a_.sort())
                     cs.append(invf(r) == a_)
                 for c in cs:
-                    ex.solver.add(c)
-                    st.pc.append(c)
+                    ex.add_constraint(st, c)
         elems = tuple(z3.Extract(8 * (n - i) - 1, 8 * (n - i) - 8, r) for i in range(n))
         for i, e in enumerate(elems):
             ex.blobs[e.get_id()] = (r.get_id(), i)
@@ -162,7 +171,15 @@ def api_call(ex, st, args, ins, fn):
         return ex.opts.get('tier') == 'thorough'
     if short == 'verifCase':
         n = args[0]
-        k = ex.choose(st, [True] * n, maporder=True)
+        K = ex.opts.get('split')
+        if K and not st.ghost.get('split_done'):
+            # the first case split of a harness is partitioned over K worker processes
+            si = ex.opts.get('split_index', 0)
+            conds = [(i % K) == si for i in range(n)]
+        else:
+            conds = [True] * n
+        k = ex.choose(st, conds, maporder=True)
+        st.ghost['split_done'] = True
         st.nondets.append(('case', k))
         return k
     raise Unsupported('unknown verif API ' + short)
@@ -717,8 +734,7 @@ def m_time_now(ex, st, args, ins, fn):
     ns = z3.BitVec(ex.fresh_name('now_ns'), 64)
     sec = z3.BitVec(ex.fresh_name('now_s'), 64)
     c = z3.And(z3.ULT(ns, 1000000000), sec >= 0, sec < (1 << 40))
-    ex.solver.add(c)
-    st.pc.append(c)
+    ex.add_constraint(st, c)
     st.nondets.append(('time_ns', ns))
     st.nondets.append(('time_s', sec))
     return (ns, sec, None)
